@@ -596,6 +596,21 @@ def run_instance(inst, tier='quick', seed=0, replay_dir=None, prefix=None, first
             qcore, _ = solve.build_query(c, goal, hints=hints, core=True)
             if len(qcore) == len(q):
                 qcore = None
+        # stage 0: shallow cone -- only the definitions of the variables of the goal itself (and of the hints), deeper
+        # variables stay free.  Unsat there is conclusive (fewer hypotheses); it is what decides facts about purified values
+        # (roots, phasors) without dragging the polynomials they were computed from into the query.
+        if kind == 'ensures' and goal.op != 'false':
+            for depth in (1, 2):
+                q0, _ = solve.build_query(c, goal, hints=hints, core=True, max_depth=depth)
+                if len(q0) < len(q):
+                    r0 = solve.check_sat(q0, timeout_s=min(timeout, 3.0), model_vars=mv, use_cvc5=False, tactics=(None,))
+                    rep['solver_time'] += r0.time
+                    if r0.status == 'unsat':
+                        seen_q[sig] = 'discharged'
+                        rep['backends']['z3-shallow-cone'] = rep['backends'].get('z3-shallow-cone', 0) + 1
+                        rep['obligations'].append({'name': name, 'status': 'discharged', 'time': round(r0.time, 4), 'backend': 'z3-shallow-cone',
+                                                   'kind': kind, 'nassert': len(q0)})
+                        return None
         # stage 1: directed slice, short budget, z3 only.  stage 2: full connected component (or the same query when the
         # slice is already complete) with the whole budget and all back ends.
         r = solve.check_sat(q, timeout_s=min(timeout, 4.0), model_vars=mv, core=qcore, use_cvc5=False, tactics=(None,))
